@@ -454,3 +454,59 @@ Definition ty_max (t : pty) : Z :=
   | TI8 => 127 | TI16 => 32767 | TI32 => 2147483647 | TI64 => 9223372036854775807
   | TU8 => 255 | TU16 => 65535 | TU32 | TF32 => 4294967295 | TU64 | TF64 => 18446744073709551615
   end.
+
+(* ------------------------------------------------------------------ several sessions on ONE Param object *)
+
+(* Nothing is pending: queue empty, updater idle, lock free, no pattern, no closure left, link empty.  Sessions are
+   closed in such states (a disconnect with requests pending is outside the model). *)
+Definition quietb (s : state) : bool :=
+  match s_queue s, s_hand s, s_pat s, s_clos s, d_out s with
+  | [], None, None, [], [] => negb (s_lock s)
+  | _, _, _, _, _ => false
+  end.
+
+(* The end of a session (close_link or a lost link): cf.link = None, then Param._disconnected:
+   param_updater.close() empties the request queue and releases wait_lock; toc = Toc(); values = {}.  The updater
+   thread, if it was holding a dequeued request while waiting for wait_lock, is woken by that release, finds no link,
+   releases the lock and drops the request (folded into this step: it is assumed to get there before the next
+   open_link).  Whatever was in flight on the link is gone with the link.  is_updated is deliberately left alone.
+   [fx = true] is the repaired code (F04f): the closures of the misc requests that were never answered are removed
+   from the dispatcher and _lock_pattern is reset; [fx = false] leaves both as they are. *)
+Definition disconnect (fx : bool) (s : state) : state :=
+  mkSt [] None false (if fx then None else s_pat s) None [] (s_updated s) (if fx then [] else s_clos s)
+       (d_store s) (d_stored s) [].
+
+(* The next open_link: Param._connection_requested (is_updated = False, toc = Toc(), values = {},
+   _initialized.clear()), then the table c' of the device now connected is downloaded.  Everything else is carried
+   over as it is. *)
+Definition connect (c' : config) (s : state) : state :=
+  mkSt (s_queue s) (s_hand s) (s_lock s) (s_pat s) (s_outst s) [] false (s_clos s) (dev_init c') [] [].
+
+Definition reconnect (fx : bool) (c' : config) (s : state) : state := connect c' (disconnect fx s).
+
+(* a freshly constructed Param *)
+Definition blank : state := mkSt [] None false None None [] false [] [] [] [].
+
+(* a history: for every session the table/device that is connected and what happens during it; a session may end
+   at ANY point (requests queued, on the wire, closures pending) *)
+Fixpoint mrun (fx : bool) (s : state) (hs : list (config * list event)) : option (state * list (list obs)) :=
+  match hs with
+  | [] => Some (s, [])
+  | (c, evs) :: r =>
+    match run c (reconnect fx c s) evs with
+    | None => None
+    | Some (s1, o) =>
+      match mrun fx s1 r with
+      | None => None
+      | Some (s2, os) => Some (s2, o :: os)
+      end
+    end
+  end.
+
+(* a misc request the model accepts and transmits: command known, parameter persistent where required, callback
+   given where the API requires one *)
+Definition misc_ok (cmd : Z) (cb : option Z) (e : elem) : bool :=
+  if cmd =? 6 then match cb with Some _ => true | None => false end
+  else if (cmd =? 3) || (cmd =? 5) then e_pers e
+  else if cmd =? 4 then e_pers e && match cb with Some _ => true | None => false end
+  else false.
